@@ -897,6 +897,13 @@ func w4(r *sup.CaseResult, rng *rand.Rand, g int) {
 		r.AddObs("w4_linearizable", 1)
 	} else {
 		r.AddObs("w4_not_linearizable_observed", 1)
+		if os.Getenv("C09_DEBUG_W4") != "" {
+			sort.Slice(steps, func(i, j int) bool { return steps[i].t0 < steps[j].t0 })
+			for _, s := range steps {
+				fmt.Fprintf(os.Stderr, "W4 c%d [%d,%d] %+v -> %+v\n", s.c, s.t0, s.t1, s.in, s.out)
+			}
+			fmt.Fprintln(os.Stderr, "W4 ----")
+		}
 	}
 	// spelled-out clauses, independent of the linearizability verdict:
 	// a successful mutation on a path that no other operation of the history touches (nor an
